@@ -351,6 +351,23 @@ func famC04(r *Run) {
 	for _, e := range loadVerifCorpus("syntax.jsonl") {
 		r.addAst("corpus", e, false)
 	}
+	// expectations written from the JMESPath grammar (not from parser.go)
+	var exp struct{ Reject, Accept []string }
+	if data, err := ioutil.ReadFile(filepath.Join(verifDir(), "corpus", "grammar_expectations.json")); err == nil {
+		json.Unmarshal(data, &exp)
+	}
+	for _, e := range exp.Reject {
+		if a := observeCompile(e); a.Kind == "ok" {
+			r.violate("grammar-expectations", e, nil, "an ungrammatical expression is accepted by Compile", "")
+		} else if a.Kind == "panic" {
+			r.violate("grammar-expectations", e, nil, "Compile panics", a.Msg)
+		}
+	}
+	for _, e := range exp.Accept {
+		if a := observeCompile(e); a.Kind != "ok" {
+			r.violate("grammar-expectations", e, nil, "a grammatical expression is rejected by Compile", a.Kind+" "+a.Msg)
+		}
+	}
 	r.corpusAst("compliance", false)
 	for _, e := range loadFuzzCorpus() {
 		r.addAst("fuzz-testdata", e, false)
@@ -390,7 +407,8 @@ func (r *Run) randomBytes(n int) string {
 		case 0:
 			b[i] = byte(r.rng.Intn(256))
 		case 1:
-			b[i] = "abc_019.*[]{}()|&!<>=,:@`'\"\\ -?"[r.rng.Intn(32)]
+			const pool = "abc_019.*[]{}()|&!<>=,:@`'\"\\ -?"
+			b[i] = pool[r.rng.Intn(len(pool))]
 		case 2:
 			b[i] = byte(0x80 + r.rng.Intn(0x40))
 		default:
